@@ -33,11 +33,11 @@ CHECKS = {
  'C03': ('exploration',
          'stateless deviation-bounded exploration (reply faults x thread schedules) of the real connect sequence against a simulated device',
          'A real Crazyflie object downloads the tables from a simulated device (SimCF) through a simulated link under a '
-         'controlled scheduler with virtual time. 36 small configurations (both TOC generations, no-versioning device, '
+         'controlled scheduler with virtual time. 40 small configurations (both TOC generations, no-versioning device, '
          'sizes 0..3, every type code, name-length extremes, ISO-8859-1 names, lossy and reliable links, rw/ro cache) are '
          'explored with every single deviation (quick) / every pair of deviations on six of them (thorough) among: '
          'duplicate a reply, delay it past the retry timer (stale reply to an earlier request), drop it, pick another '
-         'runnable thread at any synchronisation point; tables of 255..600 entries are explored with one reply fault at '
+         'runnable thread at any synchronisation point (default, eager-start and hand-off default schedules); tables of 255..600 entries (also with the 1-byte index of protocol 4) are explored with one reply fault at '
          'the structurally interesting indices (first, 254..257, last). At connected, both tables must equal the '
          'device tables field by field and the four lookup functions must agree.',
          'SimCF is my reading of the TOC wire protocol; faults on link-control/platform requests (which have no retry) '
@@ -46,7 +46,7 @@ CHECKS = {
  'C02': ('exploration',
          'stateless deviation-bounded exploration of thread schedules and fault/close times of the real connection code under a controlled scheduler',
          'The real Crazyflie / SyncCrazyflie objects connect to a simulated device while a controlled scheduler owns every '
-         'thread switch and the clock. Explored exhaustively: every single deviation (quick) among link error from the '
+         'thread switch and the clock. 14 configurations (Crazyflie / SyncCrazyflie, protocol 3 / 10, hello packet, unsolicited value update during the download, immediate retry of a failed blocking open, default / eager-start / hand-off default schedule). Explored exhaustively: every single deviation (quick) among link error from the '
          'driver thread at any scheduling point, link error raised inside send_packet at any transmission, user close_link '
          'at any point, any other runnable thread at any synchronisation point - and, in two line-level configurations, '
          'at every line of 17 functions with unsynchronised check-then-act on shared attributes; thorough adds every pair '
@@ -54,8 +54,8 @@ CHECKS = {
          'second session on the same object. Oracle: callback grammar and counts of the statement, no deadlock / hang / '
          'dead thread, DISCONNECTED reached, second session fully connects with the device values.',
          'SimLink mirrors RadioDriver (error callback from its own thread or inside send_packet, close() clears the '
-         'callback); virtual time makes a running thread infinitely fast relative to timers at other instants; two '
-         'genuine defects of the same root cause are listed in known_findings.json',
+         'callback); virtual time makes a running thread infinitely fast relative to timers at other instants; the '
+         'genuine defects not repaired (dispatcher not excluded from teardown, and its consequences) are listed in known_findings.json',
          'DESIGN.md §3 C02', 'E3'),
  'C14': ('exploration',
          'exhaustive enumeration of field alphabets and of every single-byte corruption against independent reference codecs',
@@ -75,7 +75,7 @@ CHECKS = {
  'C10': ('exploration',
          'stateless deviation-bounded exploration of loss/delay patterns, close/reopen times and timer-vs-dispatcher orders on the real retry code in virtual time',
          'The real Crazyflie.send_packet / retry timers / dispatcher run against a silent simulated device under the '
-         'controlled scheduler. 16 scenarios (single request with 0.2 s and 1 s timeout, prefix-sharing patterns in both '
+         'controlled scheduler. 22 scenarios (a second user thread sending across close/re-open, hand-off default schedule, single request with 0.2 s and 1 s timeout, prefix-sharing patterns in both '
          'issue orders, unsolicited packet matching several pending patterns, close, close+reopen inside and at the retry '
          'instant, reliable link) are explored with every single deviation and (3 scenarios quick / all thorough) every '
          'pair of deviations among: the reply to each transmission in {lost, +0, +0.1, +0.2 (tie), +0.3, +0.5 s}, the '
@@ -127,10 +127,10 @@ CHECKS = {
          'Part A: all 10 firmware parameter types x both id widths (protocol 10 / 3) x a value alphabet (type min/max, one '
          'beyond, -1, 0, 1, 2, 2^64, decimal strings; float specials and overflow) through the real set_value / '
          'request_param_update: exact wire bytes, refusal without any transmission, cache, get_value and each of the three '
-         'callback kinds exactly once with str(device value). Part B: 14 thread sets (2-3 user threads issuing set / read / '
+         'callback kinds exactly once with str(device value). Part B: 25 configurations of 13 thread sets (2-3 user threads issuing set / read / '
          'persistent store / clear / get_state / get_default on 3 parameters of equal width) explored with every single '
          'deviation (quick) / every pair (thorough) among reply delayed past the retry timer, unsolicited value-changed '
-         'packet at any point, and any other runnable thread at any synchronisation point: wire order equals queue order, '
+         'packet at any point or already in flight when the requests are issued, and any other runnable thread at any synchronisation point: wire order equals queue order, '
          'no request is sent before the previous one was answered, every callback fires exactly once with the answer the '
          'reference device model gives for that very request, caches equal the device, nothing left blocked.',
          'SimCF parameter-port model; not demanded: non-integral values for integer types, default 2 of a 1-byte parameter '
